@@ -81,6 +81,19 @@ pub fn main() -> i32 {
         "C11" => refsearch::run(&args),
         "C12" => mates::run(&args),
         "C16" => determ::run(&args),
+        "tt-size" => {
+            // debug: cache entries after a fixed-depth search
+            let fen = args.rest.first().cloned().unwrap_or_default();
+            let d: u8 = args.rest.get(1).and_then(|x| x.parse().ok()).unwrap_or(4);
+            searchrun::quiet_panics();
+            let (board, _, _) = searchrun::open(&fen, &[]).unwrap();
+            let case = searchrun::Case { fen: fen.clone(), history: vec![], limits: searchrun::Limits::default(), max_depth: Some(d), cut: searchrun::Cut::None };
+            let t = std::time::Instant::now();
+            let out = searchrun::run(&board, &case, &searchrun::Opts { clear_cache: true, observe: false, neutral: false });
+            let n = crate::board::transposition_table::TRANSPOSITION_TABLE.read().unwrap().len();
+            eprintln!("depth {d}: nodes {} cache entries {n} in {:.2}s", out.nodes, t.elapsed().as_secs_f64());
+            0
+        }
         "gen-mates" => {
             let n: usize = args.rest.first().and_then(|x| x.parse().ok()).unwrap_or(100);
             for (fen, label) in mates::generate(n, 0x5EED_C12) {
